@@ -40,13 +40,31 @@ func (s *JsonObjectBuilder) KeyCount() int {
 func (s *JsonObjectBuilder) WriteInferred(key, val string) {
 	if isNumeric(val) {
 		s.WriteLiteral(key, val)
-	} else if strings.EqualFold(val, "true") {
+	} else if equalFoldASCII(val, "true") {
 		s.WriteLiteral(key, "true")
-	} else if strings.EqualFold(val, "false") {
+	} else if equalFoldASCII(val, "false") {
 		s.WriteLiteral(key, "false")
 	} else {
 		s.WriteString(key, val)
 	}
+}
+
+// ASCII-only case-insensitive comparison with a lower-case word. (strings.EqualFold folds by
+// Unicode rules, under which "fal\u017fe" (long s) equals "false".)
+func equalFoldASCII(s, lower string) bool {
+	if len(s) != len(lower) {
+		return false
+	}
+	for i := 0; i < len(s); i++ {
+		c := s[i]
+		if 'A' <= c && c <= 'Z' {
+			c += 'a' - 'A'
+		}
+		if c != lower[i] {
+			return false
+		}
+	}
+	return true
 }
 
 // Write a {"Key": literal} (Note, no quotes in literal)
